@@ -4,7 +4,7 @@ Copies MUTANTS/<k>/{patch.diff,demo.py,README.txt} to /verif/seeded/<id>/ and wr
 import json, os, shutil, sys, glob
 sid, prop, wt, k, caught, needs, notes = sys.argv[1:8]
 HERE = os.path.dirname(os.path.dirname(os.path.abspath(__file__)))
-src = os.path.join(wt, 'MUTANTS', k)
+src = os.path.join(wt, os.environ.get('SEED_DIR', 'MUTANTS'), k)
 dst = os.path.join(HERE, 'seeded', sid)
 os.makedirs(dst, exist_ok=True)
 for f in ('patch.diff', 'demo.py', 'README.txt'):
